@@ -334,7 +334,8 @@ impl<'a> TypstTranslator<'a> {
             Expr::Let(let_binding) => merge![
                 match let_binding.kind() {
                     LetBindingKind::Normal(pattern) => self.parse_pattern(pattern, offset),
-                    LetBindingKind::Closure(ident) => self.parse_ident(ident, offset),
+                    // The closure in `init` yields its own name.
+                    LetBindingKind::Closure(_) => None,
                 },
                 let_binding.init().and_then(|e| recurse!(e))
             ],
